@@ -146,14 +146,17 @@ func (c *Ctx) obFollow(what string, f *ssa.Function, trig func(ssa.Instruction) 
 	})
 	for _, t := range trigs {
 		t := t
-		v := RunPend(f, PendRule{
-			Trig:     func(in ssa.Instruction) bool { return in == t },
-			Disch:    c.mustDo(disch...),
-			DeferD:   c.deferMustDo(disch...),
-			SkipEdge: skip,
-			ExitOK:   exitOK,
-			AtExit:   true,
-		})
+		var v []PathViolation
+		if !c.mustDo(disch...)(t) { // a helper that performs both the trigger and the required event satisfies the rule
+			v = RunPend(f, PendRule{
+				Trig:     func(in ssa.Instruction) bool { return in == t },
+				Disch:    c.mustDo(disch...),
+				DeferD:   c.deferMustDo(disch...),
+				SkipEdge: skip,
+				ExitOK:   exitOK,
+				AtExit:   true,
+			})
+		}
 		d := ""
 		if len(v) > 0 {
 			d = fmt.Sprintf("path from %s to the return at %s does not pass any of %v", c.P.InstrPos(t), c.P.InstrPos(v[0].At), disch)
